@@ -52,7 +52,7 @@ def bounds(tier, alpha):
 
 def hstr(h):
     return ' '.join('+' + op[1] if op[0] == 'add' else f'+{op[1]}@{op[2]}' if op[0] == 'addf' else f'-#{op[1]}' if op[0] == 'rm'
-                    else f'#{op[1]}:={op[2]}' if op[0] == 'rep' else f'.{op[1]}' if op[0] == 'set' else f'.{op[1]}=None' if op[0] == 'unset'
+                    else f'#{op[1]}:={op[2]}' if op[0] == 'rep' else f'-k{op[1]}' if op[0] == 'rmk' else f'.{op[1]}' if op[0] == 'set' else f'.{op[1]}=None' if op[0] == 'unset'
                     else f'str({op[1]})' for op in h)
 
 
@@ -196,6 +196,17 @@ def eval_type(args):
                     v = hist.verdict(e2)
                     if v != ('ok', w):
                         fail('C02', h, f'complete valid word {list(w)}: to_string gives {v}')
+                    else:
+                        # C18: for a valid in-order word the unchecked twin serialises byte-identically
+                        ec, _, _, _ = hist.run(lib, name, h)
+                        eu, _, _, _ = hist.run(lib, name, h, check=False)
+                        try:
+                            same = ec.to_string() == eu.to_string()
+                        except Exception as ex:
+                            same = False
+                        counts['C18'] += 1
+                        if not same:
+                            fail('C18', h, 'valid in-order children: output of the xsd_check=False twin differs from the checked element')
             ua = unique_arrangement(tkey, w)
             if ua is not None:
                 counts['C12'] += 1
